@@ -138,6 +138,41 @@ func init() {
 			rng := NewRng(c.Seed)
 			// operation histories against the model (whose sp_* functions are the list semantics)
 			famHist(c, defaultCfg, 15000*c.Scale, 10, "ppppppq", false, allButVerrs, "searchparams", nil)
+			// long lists with repeated names: sorting (library sorts switch algorithm with the length)
+			c.Pool.Run(1500*c.Scale, func(d *Driver, i int) {
+				r := rng.Fork(7000000 + i)
+				n := 2 + r.Intn(60)
+				names := []string{"a", "b", "c", "a", "b", "aa", "", "A", "é", "a b", "k&"}
+				var ps []string
+				for k := 0; k < n; k++ {
+					ps = append(ps, r.Pick(names)+"="+fmt.Sprint(k))
+				}
+				ops := []Op{{K: "o"}, {K: "q", A: "a"}}
+				if r.Chance(1, 2) {
+					ops = []Op{{K: "O"}, {K: "q", A: "b"}}
+				}
+				if r.Chance(1, 3) {
+					ops = append([]Op{{K: "d", A: r.Pick(names)}}, ops...)
+				}
+				in := "http://h/?" + strings.Join(ps, "&")
+				c.cmpHist(d, defaultCfg, nil, in, ops, allButVerrs, "long-lists", i)
+				// the sort on the implementation against an independent stable sort
+				if u, err := url.Parse(in); err == nil {
+					sp := u.SearchParams()
+					before := url.VerifSearchParamsPairs(sp)
+					full := ops[len(ops)-2].K == "O"
+					if full {
+						sp.SortAbsolute()
+					} else {
+						sp.Sort()
+					}
+					after := url.VerifSearchParamsPairs(sp)
+					if want := sortedPairsBy(before, full); strings.Join(after, "\x00") != strings.Join(want, "\x00") {
+						c.Report(Finding{Class: "violation", What: fmt.Sprintf("Sort (name+value=%v) is not the stable sort: %q became %q, expected %q", full, before, after, want),
+							Case: Case{Kind: "hist", Input: in, Ops: []string{ops[len(ops)-2].String()}, Family: "long-lists", Index: i}})
+					}
+				}
+			})
 			// parsing of arbitrary queries and round trip of arbitrary lists
 			c.Pool.Run(15000*c.Scale, func(d *Driver, i int) {
 				r := rng.Fork(i)
